@@ -94,7 +94,7 @@ def ref_parse_response(raw):
             hdrs[cur] = hdrs[cur] + ',' + v
         else:
             hdrs[cur] = v
-    return code, hdrs
+    return code, {k: v.strip(' \t') for k, v in hdrs.items()}      # OWS around a field value is not part of it (RFC 7230 3.2.4)
 
 
 @ground('bounded.response.Response', serves=['C10', 'C19', 'C06'])
@@ -125,12 +125,32 @@ def bounded_response():
                     r = Response(raw)
                     code, hdrs = ref_parse_response(raw)
                     got = {k2: v2 for k2, v2 in r.headers.items()}
-                    norm = lambda d: {a: re.sub(r'\s*,\s*', ',', re.sub(r'\s+', ' ', b_)).strip() for a, b_ in d.items()}
+                    # RFC 7230 3.2.4: a field value has no leading / trailing white space (so the ends are compared exactly);
+                    # runs of white space inside (obs-fold) and around the comma of a joined duplicate are equivalent
+                    norm = lambda d: {a: re.sub(r'\s*,\s*', ',', re.sub(r'\s+', ' ', b_)) for a, b_ in d.items()}
                     if (r.status_code != code or norm(got) != norm(hdrs)) and bad is None:
                         bad = dict(input=raw.decode('latin-1'), got=[r.status_code, got], expected=[code, hdrs])
                     for nm in ('upgrade', 'Upgrade', 'sec-websocket-accept'):
                         if r.get(nm, None) != r.headers.get(nm.lower(), None) and bad is None:
                             bad = dict(input=raw.decode('latin-1'), get=nm)
+    # a value that sits entirely, or partly, on folded continuation lines (obs-fold right after the colon / after white space)
+    for status in statuses[:2]:
+        for nm in names:
+            for v in values[:4]:
+                for first in (b'', b' ', b'\t ', b' ' + v[:2], b' ' + v[:2] + b' '):
+                    for lead in (b' ', b'\t', b'   '):
+                        for trail in (b'', b' '):
+                            for before, after in (([], []), ([b'X-B: 1'], []), ([], [b'X-B: 1']), ([nm + b': ' + v], [])):
+                                rest = v if first.strip() == b'' else v[2:]
+                                if not rest:
+                                    continue
+                                raw = b'\r\n'.join([status] + before + [nm + b':' + first, lead + rest + trail] + after) + b'\r\n\r\n'
+                                n += 1
+                                r = Response(raw)
+                                code, hdrs = ref_parse_response(raw)
+                                got = dict(r.headers)
+                                if (r.status_code != code or norm(got) != norm(hdrs)) and bad is None:
+                                    bad = dict(input=raw.decode('latin-1'), got=[r.status_code, got], expected=[code, hdrs])
     yield ('Response==reference-field-parser(%d replies)' % n, bad is None, bad, 'bounded enumeration')
     # get_list: comma separated items, stripped
     bad = None
